@@ -740,7 +740,15 @@ def r18_4(ctx, prog, crate):
     ctx.note("R18.4 value argument: q = floor(picos*10^s / unit) is exact integer arithmetic; q / 10^s as f64 then has at most s decimals and format_f64 only truncates")
 
 
+def r18_5(ctx, prog, crate):
+    """(= R15.13) Sizes are printed with decimal or binary prefixes *as configured*: the command line gives `--bytes-format`
+    no default of its own, so a run without the flag keeps the format set through Divan::bytes_format."""
+    from .C15 import no_cli_defaults
+    no_cli_defaults(ctx, "R18.5", prog, crate, only={"bytes-format"})
+
+
 def run(ctx, prog, crate):
+    r18_5(ctx, prog, crate)
     r18_1(ctx, prog, crate)
     r18_2(ctx, prog, crate)
     r18_3(ctx, prog, crate)
